@@ -209,7 +209,7 @@ class Generator {
     int k = kinds[rng_.below(static_cast<int>(sizeof kinds / sizeof kinds[0]))];
     if (cfg_.w[k] == 0 && k != OP_CALL) k = OP_CALL;
     Op o = gen_kind(k, depth);
-    if (o.kind == OP_EXPECT) o.a[8] &= 1;
+    if (o.kind == OP_EXPECT || o.kind == OP_REQ_DESTRUCTION) o.a[8] &= 1;
     return o;
   }
 
@@ -220,7 +220,7 @@ class Generator {
       case OP_NEW_MOCK: return mk(k, rng_.below(2));
       case OP_MOVE_MOCK: return mk(k, rng_.below(8), rng_.below(2));
       case OP_ASSIGN_WATCHED: { Op o = mk(k, rng_.below(8), rng_.below(8)); o.a[2] = rng_.below(2); return o; }
-      case OP_REQ_DESTRUCTION: { Op o = mk(k, rng_.below(8), profile_ == PF_SEQ ? rng_.range(0, 2) : (rng_.chance(1, 3) ? rng_.range(1, 2) : 0)); o.a[7] = rng_.below(8); o.a[9] = rng_.below(4); return o; }
+      case OP_REQ_DESTRUCTION: { Op o = mk(k, rng_.below(8), profile_ == PF_SEQ ? rng_.range(0, 2) : (rng_.chance(1, 3) ? rng_.range(1, 2) : 0)); o.a[7] = rng_.below(8); o.a[9] = rng_.below(4); if (depth == 0 && scoped_pct_ && rng_.below(100) < scoped_pct_) o.a[8] |= 2; return o; }
       case OP_MUTATE: return mk(k, rng_.below(12), rng_.below(8));
       case OP_PUSH_TRACER: return mk(k, rng_.below(2));
       case OP_SET_REPORTER: return mk(k, rng_.below(2));
